@@ -19,7 +19,7 @@ import (
 	"verifextract/ex"
 )
 
-func main() { ex.Main([]string{"ImageConsts.lean"}, gen) }
+func main() { ex.Main([]string{"ImageConsts.lean", "ImageFlow.lean"}, gen) }
 
 const prelude = `namespace VaxisModel.Gen.ImageConsts
 
@@ -661,4 +661,137 @@ func gen(c *ex.Ctx) {
 
 	sb.WriteString("\nend VaxisModel.Gen.ImageConsts\n")
 	c.Write("ImageConsts.lean", sb.String())
+	genFlow(c, f)
+}
+
+// ---- statement skeletons (round 2): normalised source text, statement by statement, of the code around the
+// arithmetic that is modelled by hand: cellPixelSize, the cell-size computations of the two Resize methods, the
+// size gates of the Draw methods, the upload closure of KittyImage.Draw, the upload side of KittyImage.Resize, the
+// Draw loops of the block images, and the placement loops of render.  Never fails: anything not found is the
+// empty list / "unknown", and the `facts_*` theorems of Props/C20Ext.lean say what the model assumes.
+
+func stmtTexts(c *ex.Ctx, l []ast.Stmt) []string {
+	out := make([]string, 0, len(l))
+	for _, s := range l {
+		out = append(out, src(c, s))
+	}
+	return out
+}
+
+func leanStrList(l []string) string {
+	q := make([]string, len(l))
+	for i, s := range l {
+		q[i] = ex.LeanStr(s)
+	}
+	return "[" + strings.Join(q, ",\n  ") + "]"
+}
+
+// goFuncBody returns the statements of the first `go func() { … }()` in l.
+func goFuncBody(l []ast.Stmt) []ast.Stmt {
+	for _, s := range l {
+		if g, ok := s.(*ast.GoStmt); ok {
+			if fl, ok := g.Call.Fun.(*ast.FuncLit); ok {
+				return fl.Body.List
+			}
+		}
+	}
+	return nil
+}
+
+// closureBody returns the statements of `name := func(...) { … }` in l.
+func closureBody(l []ast.Stmt, name string) []ast.Stmt {
+	for _, s := range l {
+		as, ok := s.(*ast.AssignStmt)
+		if !ok || len(as.Lhs) != 1 || len(as.Rhs) != 1 {
+			continue
+		}
+		if id, ok := as.Lhs[0].(*ast.Ident); ok && id.Name == name {
+			if fl, ok := as.Rhs[0].(*ast.FuncLit); ok {
+				return fl.Body.List
+			}
+		}
+	}
+	return nil
+}
+
+// keep returns the statements whose text contains one of the keys.
+func keep(texts []string, keys ...string) []string {
+	var out []string
+	for _, t := range texts {
+		for _, k := range keys {
+			if strings.Contains(t, k) {
+				out = append(out, t)
+				break
+			}
+		}
+	}
+	return out
+}
+
+// gates: the leading `if … { return }` statements.
+func gates(c *ex.Ctx, l []ast.Stmt) []string {
+	var out []string
+	for _, s := range l {
+		is, ok := s.(*ast.IfStmt)
+		if !ok || is.Else != nil || len(is.Body.List) != 1 {
+			continue
+		}
+		if _, ok := is.Body.List[0].(*ast.ReturnStmt); ok {
+			out = append(out, src(c, is.Cond))
+		}
+	}
+	return out
+}
+
+func genFlow(c *ex.Ctx, f *ast.File) {
+	var sb strings.Builder
+	sb.WriteString("namespace VaxisModel.Gen.ImageFlow\n\n")
+	body := func(recv, name string) []ast.Stmt {
+		fd := ex.FindFunc(f, recv, name)
+		if fd == nil || fd.Body == nil {
+			return nil
+		}
+		return fd.Body.List
+	}
+	emit := func(name, doc string, l []string) {
+		fmt.Fprintf(&sb, "/-- %s -/\ndef %s : List String := %s\n\n", doc, name, leanStrList(l))
+	}
+	emit("cellPixelSizeBody", "(*Vaxis).cellPixelSize, statement by statement", stmtTexts(c, body("Vaxis", "cellPixelSize")))
+	kr := body("KittyImage", "Resize")
+	emit("kittyResizeCell", "KittyImage.Resize: where the cell pixel size comes from and how k.w / k.h are computed",
+		keep(stmtTexts(c, kr), "cellPix", "k.w", "k.h"))
+	emit("kittyResizeUpload", "KittyImage.Resize, the goroutine: every statement that touches k.uploaded or k.buf",
+		keep(stmtTexts(c, goFuncBody(kr)), "k.uploaded", "k.buf"))
+	sr := goFuncBody(body("Sixel", "Resize"))
+	emit("sixelResizeCell", "Sixel.Resize (goroutine): cell pixel size, s.w / s.h", keep(stmtTexts(c, sr), "cellPix", "s.w", "s.h"))
+	kd := body("KittyImage", "Draw")
+	emit("kittyDrawGates", "KittyImage.Draw: conditions of the `if … { return }` statements", gates(c, kd))
+	emit("kittyWriteFunc", "KittyImage.Draw: the writeTo closure of the placement", stmtTexts(c, closureBody(kd, "writeFunc")))
+	sd := body("Sixel", "Draw")
+	emit("sixelDrawGates", "Sixel.Draw: conditions of the `if … { return }` statements", gates(c, sd))
+	emit("halfDraw", "HalfBlockImage.Draw", stmtTexts(c, body("HalfBlockImage", "Draw")))
+	emit("fullDrawLoop", "FullBlockImage.Draw: the loop header and the two index statements",
+		keep(strings.Split(strings.Join(stmtTexts(c, body("FullBlockImage", "Draw")), " ; "), " ; "), "for i, cell"))
+	// render: from the label outerLast to `vx.graphicsLast = vx.graphicsNext`
+	var loops []string
+	if vf := c.Parse("vaxis.go"); vf != nil {
+		if fd := ex.FindFunc(vf, "Vaxis", "render"); fd != nil && fd.Body != nil {
+			on := false
+			for _, s := range fd.Body.List {
+				t := src(c, s)
+				if ls, ok := s.(*ast.LabeledStmt); ok && ls.Label.Name == "outerLast" {
+					on = true
+				}
+				if on {
+					loops = append(loops, t)
+				}
+				if t == "vx.graphicsLast = vx.graphicsNext" {
+					break
+				}
+			}
+		}
+	}
+	emit("renderPlacementLoops", "(*Vaxis).render: the statements from `outerLast:` to `vx.graphicsLast = vx.graphicsNext`", loops)
+	sb.WriteString("end VaxisModel.Gen.ImageFlow\n")
+	c.Write("ImageFlow.lean", sb.String())
 }
